@@ -35,3 +35,13 @@ Definition h1 : str := [116;101;120;116;47;104;116;109;108;44;32;97;112;112;108;
 (* "text/html, application/json;q=0.5" : defect D8 (fixed) *)
 Example C18_nonvacuous : negotiate (Some h1) = Some ct_json /\ negotiate None = Some ct_xml /\ negotiate (Some []) = Some ct_xml.
 Proof. vm_compute. auto. Qed.
+
+(* the statement of the property itself, relative to the converter's own compress and expand_all: this is the form the run
+   checks, with the implementation's answers of expand_all(compress(u)) recorded in the case *)
+Theorem C18_relative : forall inv d rs c, mk_conv true d rs = Val c -> forall is_pred u, H_d d rs ->
+  triples_for inv c is_pred u =
+  rel_answer inv is_pred (match compress c u false false with
+                          | Val (Some x) => match expand_all c x false with Val o => o | Raise _ => None end
+                          | _ => None end).
+Proof. exact triples_relative. Qed.
+Print Assumptions C18_relative.
